@@ -392,6 +392,15 @@ func init() {
 				// every data choice) in the quick tier, deviation bound 1 in the thorough one
 				b = bound - 1
 			}
+			if strings.Contains(sc.Name, "[two-clients]") && ctx.Tier != "thorough" {
+				// quick: only under the second base policy (newest goroutine first), which is the one that
+				// lets a freshly started generation run before the reloading goroutine continues
+				rev := *sc
+				rev.Name = sc.Name + "#rev"
+				rev.Opt.Policy = 1
+				engine.ExploreS(ctx, &rev, engine.SConfig{Bound: b, Shard: ctx.Shard, NShards: ctx.NShards, Deadline: ctx.Deadline})
+				continue
+			}
 			engine.ExploreS(ctx, sc, engine.SConfig{Bound: b, BothPolicies: strings.Contains(sc.Name, "[two-clients]"), Shard: ctx.Shard, NShards: ctx.NShards, Deadline: ctx.Deadline})
 		}
 	})
